@@ -10,7 +10,7 @@ CHECKS = {
   'C19': ('model_checking',
           'TLA+ spec GinDynReg.tla (symbol table, attribute chain, registration bookkeeping vs Python import semantics over a constant package tree) model-checked with TLC; TLC-built files written against a fresh real package tree and parsed by gin',
           'TLC checks for every file of up to 4 statements (import forms with colliding names, every spelling of an object reachable under two module paths, class / nested class / method / references, bad names, late enabling) that exactly the denoted object is configured, one configurable per object, and errors exactly where the file\'s own imports do not provide the name; simulated files are parsed by gin against a real temporary package (fresh module names per case), comparing error class, configured objects, behaviour through references, and - with a second file whose import collides - that config_str() re-parses to the same objects and is idempotent.',
-          'Include structures between files are not in this model; skip_unknown under dynamic registration is (known = resolvable through the file\'s imports).',
+          'Include structures between files are not in this model. Exhaustively exported families: an earlier file of the same process (what it registered, bound, imported and referred to stays), sibling packages with equal leaf module names, two imports binding one name, references (plain, scoped, to a nested class) made before / after methods of the class are configured; errors must name the line of the offending statement. Findings F11, F17, F21 (fixed).',
           'DESIGN.md section 6 C19'),
 
   'C18': ('model_checking',
@@ -28,22 +28,22 @@ CHECKS = {
   'C14': ('model_checking',
           'TLA+ spec GinParse.tla (streaming recursive parse vs fold over the flattened text; ordered file resolution) model-checked with TLC; TLC-exported file stores materialised on disk / in a memory reader and parsed by gin',
           'TLC checks for every store of up to 3 files x skip_unknown form x placement that the recursive streaming parse equals the fold over the flattened statements and that resolution is location-major, reader-minor; stores are materialised with poisoned files at every non-first placement and parsed by gin (applied statements, provenance, returned tree, errors, multi-file entry point).',
-          'Statements rendered one per line. Readers: open(), gin\'s Python-path resource reader (a package-relative include), a custom in-memory reader.',
+          'Statements rendered one per line (every other case with comment / blank lines between statements and block members, line numbers mapped). Readers: open(), gin\'s Python-path resource reader, a custom in-memory reader. Also modelled and replayed: the history of add_config_file_search_path calls (other orders, duplicates, the explicit current directory), eight argument forms of parse_config_files_and_bindings (C14_Entry), imports recorded per completed parse.',
           'DESIGN.md section 6 C14'),
   'C15': ('model_checking',
           'TLA+ spec GinParse.tla (C15_Reduced, C15_KnownApplied, C15_UnlistedStillError) model-checked with TLC; TLC-exported stores parsed by gin under every form of skip_unknown',
           'TLC checks that parsing with skip_unknown equals parsing the text with exactly the statements targeting unknown (listed) names and imports of missing modules deleted, over all stores within bounds and the forms False / True / list; stores are parsed by gin with list / tuple / set forms rotated.',
-          'GinParse covers static registration; the dynamic-registration reading of "known" is modelled in GinDynReg and checked by C19 (F11, fixed).',
+          'GinParse covers static registration (incl. names that match several configurables: known, never skipped, rejected); the dynamic-registration reading of "known" (resolvable through this file\'s own imports, whatever earlier files registered) is decided on GinDynReg in this check as well.',
           'DESIGN.md section 6 C15'),
   'C16': ('model_checking',
           'TLA+ spec GinParse.tla (prefix property, error class and location chain, provenance) model-checked with TLC; TLC-exported faulty stores parsed by gin',
           'TLC checks that a parse failing at any statement, for any modelled syntactic or semantic reason and at any include depth, leaves exactly the flattened prefix applied and reports one (file, line) per include level; faulty stores (12 concrete syntax / tokenizer error texts rotated) are parsed by gin comparing applied statements, provenance, error class, location chain, restored scope / lock / parse contexts and a follow-up parse.',
-          'Line numbers rely on the one-statement-per-line rendering.',
+          'Every other case is rendered with comment / blank lines between statements and between block members (specification line numbers mapped to real ones); faults include tokenizer-level ones placed as the first token after a complete statement or block; failing files under dynamic registration (GinDynReg) are decided here too, incl. the line named by the error.',
           'DESIGN.md section 6 C16'),
 
   'C13': ('model_checking',
           'TLA+ spec GinRegister.tla (validation order of _make_configurable, method renaming, interactive mode; Predict table) model-checked with TLC; TLC behaviours replayed through the three real registration APIs; predicted observables enumerated over a shape universe',
-          'TLC explores all sequences of up to 4 registration requests with interactive-mode and lock switches and checks atomicity of rejection, the interactive-mode rule and that the mode ends with its block; behaviours are replayed into gin comparing status and registry; the transparency clauses (identity, no injection into the original, metadata, subclassing, exact instance type, pickling) are predicted by the model per (API, kind, scoped) and observed on 14 callable / class shapes.',
+          'TLC explores all sequences of up to 4 registration requests with interactive-mode and lock switches and checks atomicity of rejection, the interactive-mode rule and that the mode ends with its block; behaviours are replayed into gin comparing status and registry; the transparency clauses (identity, no injection into the original, metadata, subclassing, exact instance type, pickling) are predicted by the model per (API, kind, scoped) and observed on 16 callable / class shapes (incl. a function decorated before registration, a closed __new__ over a **kwargs mixin); every third world registers distinct-but-equal callables, every other request spells the full name as a dotted name.',
           'The object-model clauses are an enumeration by the harness over a fixed shape universe, not a TLC result (stated in DESIGN.md).',
           'DESIGN.md section 6 C13'),
 
